@@ -107,8 +107,10 @@ ROWOPS = {"remove": "remove_sequences", "discard": "discard_sequences", "keep": 
 # concat_list_len_* = E1 lists over the pool (full pool / SUBPOOL+foreign); concat_with_current_len = lists that
 # contain the current matrix (length 3 only in states of depth <= concat_with_current_len3_depth);
 # self_extension_depth / name_collision_depth(_lists_of_3) = deepest state in which the two input classes that
-# currently never terminate (m.extend_*(m); concatenate with colliding subset names) are enumerated - each costs
-# a full line budget (~0.14 s)
+# never terminated before the repairs of F16/F17 (m.extend_*(m); concatenate with colliding subset names) are
+# enumerated (9 = every depth; they run directly under the line budget);
+# history_pairs_min_taxa_missing = in every state with at least that many namespace taxa lacking a row (and depth
+# <= depth bound - 2) every pair [fill_taxa | pack | fill] -> row-wise operation is executed on ONE live object
 def bounds(tier):
     if tier == "quick":
         return {"depth": {"dna": [3, 3, 2], "standard": [3, 3, 2], "continuous": [3, 3, 2]},
@@ -116,14 +118,16 @@ def bounds(tier):
                 "concat_list_len_full_pool": 2, "concat_list_len_subpool": 3, "concat_with_current_len": 2,
                 "concat_with_current_len3_depth": -1,
                 "max_columns": 6, "all_index_subsets_up_to_columns": 4,
-                "self_extension_depth": 0, "name_collision_depth": 1, "name_collision_depth_lists_of_3": 0,
+                "self_extension_depth": 9, "name_collision_depth": 9, "name_collision_depth_lists_of_3": 9,
+                "history_pairs_min_taxa_missing": 2,
                 "line_budget": LINE_BUDGET, "chunk_states": 24}
     return {"depth": {"dna": [3, 3, 3], "standard": [3, 3, 3], "continuous": [3, 3, 3]},
             "data_types": list(DTYPES), "namespace_sizes": [1, 2, 3], "pool": "base(9)+case-variant+locus-label(11)",
             "concat_list_len_full_pool": 3, "concat_list_len_subpool": 3, "concat_with_current_len": 3,
             "concat_with_current_len3_depth": 1,
             "max_columns": 7, "all_index_subsets_up_to_columns": 5,
-            "self_extension_depth": 1, "name_collision_depth": 1, "name_collision_depth_lists_of_3": 0,
+            "self_extension_depth": 9, "name_collision_depth": 9, "name_collision_depth_lists_of_3": 9,
+            "history_pairs_min_taxa_missing": 1,
             "line_budget": LINE_BUDGET, "chunk_states": 24}
 
 
@@ -328,6 +332,17 @@ def public_view_problems(dtype, m, taxa, rows):
     return None
 
 
+def shared_rows(m):
+    """(label, label) of two taxa whose rows are one object (or one value list), else None"""
+    seen = {}
+    for t, seq in m._taxon_sequence_map.items():
+        for key in (id(seq), id(seq._character_values), id(seq._character_types), id(seq._character_annotations)):
+            if key in seen and seen[key] is not t:
+                return (seen[key]._label, t._label)
+            seen[key] = t
+    return None
+
+
 def seq_ids(m):
     ids = set()
     for seq in m._taxon_sequence_map.values():
@@ -526,8 +541,8 @@ def enabled_ops(cfg, state, depth, b):
     label, rows, subsets = state
     P = cached_pool(cfg, b)
     cap = b["max_columns"]
-    # the two input classes that currently never terminate cost a full line budget each: they are
-    # enumerated in every state up to their own depth bounds
+    # the two input classes that never terminated before F16/F17 were repaired go straight to the line
+    # budget; they are enumerated in every state up to their own depth bounds
     selfext_ok = depth <= b["self_extension_depth"]
     collide_ok = depth <= b["name_collision_depth"]
     L = maxlen(rows)
@@ -588,6 +603,8 @@ def site(op):
         return "export_character_subset"
     if k == "concat":
         return "concatenate"
+    if k == "setcell":
+        return "cell-assignment"
     return k
 
 
@@ -626,6 +643,8 @@ def opstr(cfg, op):
         return "m = m.export_character_subset(<recorded subset #%d by %s>)" % (op[1], op[2])
     if k == "concat":
         return "m = %s.concatenate([%s])" % (CLS[cfg[0]].__name__, ", ".join(argname(a) for a in op[1]))
+    if k == "setcell":
+        return "m[%s][%d] = v" % (TAXA[op[1]], op[2])
     if k == "start":
         return "m = P%d" % op[1]
     return repr(op)
@@ -703,12 +722,24 @@ def thunk_for(cfg, w, op, state):
         lst = [w.arg(a) for a in op[1]]
         cls = CLS[dtype]
         return lambda: cls.concatenate(lst)
+    if k == "setcell":
+        t = w.taxa[op[1]]
+        v = value_of(dtype, M, FILLTOKEN[dtype])
+        j = op[2]
+
+        def assign():
+            M[t][j] = v
+        return assign
     raise ValueError("unknown op %r" % (op,))
 
 
-def check_transition(cfg, state, op, ctx, b, measure=False):
+def check_transition(cfg, state, op, ctx, b, measure=False, prefix=None):
     """Apply op to a fresh rebuild of state, compare with the reference.  Returns the successor
-    state or None."""
+    state or None.
+    prefix = (state0, op0): the live matrix is built from state0 and op0 is applied to it first, on the
+    same object; `state` must be the snapshot op0 leaves behind.  The reference still judges op against
+    `state` alone, so anything op0 left outside the snapshot (rows sharing one object) shows up as a
+    disagreement, reported under 'history:<op0>-><op>|...'."""
     cfg = (cfg[0], int(cfg[1]))
     state = tup(state)
     op = tup(op)
@@ -717,6 +748,12 @@ def check_transition(cfg, state, op, ctx, b, measure=False):
     s_site = site(op)
     case = {"kind": "trans", "cfg": cfg, "state": state, "op": op, "py": opstr(cfg, op),
             "pre": pretty(state) if rows is not None else "(no current matrix)"}
+    if prefix is not None:
+        prefix = (tup(prefix[0]), tup(prefix[1]))
+        s_site = "history:%s->%s" % (site(prefix[1]), s_site)
+        case["prefix_state"], case["prefix_op"] = prefix
+        case["py"] = "%s; %s" % (opstr(cfg, prefix[1]), case["py"])
+        case["pre"] = pretty(prefix[0])
 
     def V(sig, msg):
         ctx.violation(sig, "%s   [%s %d taxa; m: %s; call: %s]" % (msg, dtype, n, case["pre"], case["py"]), case)
@@ -730,7 +767,15 @@ def check_transition(cfg, state, op, ctx, b, measure=False):
     hold = {}
 
     def make():
-        w = World(cfg, state, b)
+        if prefix is None:
+            w = World(cfg, state, b)
+        else:
+            w = World(cfg, prefix[0], b)
+            thunk_for(cfg, w, prefix[1], prefix[0])()
+            mid, _probs = snapshot(w.M, w.taxa)
+            if mid != state:
+                raise AssertionError("harness: the prefix operation did not reproduce the intermediate snapshot")
+            hold["inherited_sharing"] = shared_rows(w.M) is not None
         th = thunk_for(cfg, w, op, state)
         # ids of every argument row object, before the call
         hold["argids"] = set()
@@ -784,6 +829,8 @@ def check_transition(cfg, state, op, ctx, b, measure=False):
             if op[1] == "remove" and any(rows[i] is None for i in named):
                 exp_exc = "key"
                 partial_remove = named
+    elif k == "setcell":
+        exp_rows = tuple(r[:op[2]] + (FILLTOKEN[dtype],) + r[op[2] + 1:] if i == op[1] else r for i, r in enumerate(rows))
     elif k == "export_idx":
         exp_rows = ref_export(rows, op[1])
     elif k == "export_sub":
@@ -821,6 +868,10 @@ def check_transition(cfg, state, op, ctx, b, measure=False):
         if (snap[0], snap[1]) != (before[1], before[2]) or snap[2] != () or probs:
             V("%s|argument-changed" % s_site, "argument %s changed: now %s" % (argname(a), probs or pretty(snap)))
             ok = False
+        sh = shared_rows(w.arg(a))
+        if sh:
+            V("%s|rows-share-one-object" % s_site, "the rows of taxa %r and %r of argument %s are one and the same object" % (sh + (argname(a),)))
+            ok = False
     succ = None
     if uses_self:
         after, probs = snapshot(w.M, w.taxa)
@@ -847,6 +898,12 @@ def check_transition(cfg, state, op, ctx, b, measure=False):
                 ok = False
         if args and hold["argids"] & seq_ids(w.M):
             V("%s|row-shared-with-argument" % s_site, "a row object (or its value list) of the receiver is the argument's own")
+            ok = False
+        sh = shared_rows(w.M)
+        if sh and not hold.get("inherited_sharing"):
+            # (sharing left behind by the first operation of a pair is reported once, at its origin,
+            #  as '<first op>|rows-share-one-object'; here only its behavioural consequences count)
+            V("%s|rows-share-one-object" % s_site, "the rows of taxa %r and %r are one and the same object" % sh)
             ok = False
         target, ttaxa, trows = w.M, w.taxa, after[1]
         succ = after
@@ -884,6 +941,15 @@ def check_transition(cfg, state, op, ctx, b, measure=False):
         if (hold["argids"] | hold["selfids"]) & seq_ids(res):
             V("%s|row-shared-with-argument" % s_site, "a row object (or its value list) of the result is one of the source's own")
             ok = False
+        sh = shared_rows(res)
+        if sh:
+            V("%s|rows-share-one-object" % s_site, "the rows of taxa %r and %r of the result are one and the same object" % sh)
+            ok = False
+        if uses_self:
+            sh = shared_rows(w.M)
+            if sh and not hold.get("inherited_sharing"):
+                V("%s|rows-share-one-object" % s_site, "the rows of taxa %r and %r of the source are one and the same object" % sh)
+                ok = False
         target, trows = res, rsnap[1]
         succ = rsnap if first != "foreign" else None
     if not ok:
@@ -986,6 +1052,9 @@ def check_streams(cfg, schema, lst, ctx, b):
         V("concatenate_from_streams|%s" % ("inconsistent-row-store" if probs else row_feature("concat", None, rsnap[1], plan["rows"])),
           "result rows %s, reference %s" % (probs or show_rows(rsnap[1]), show_rows(plan["rows"])))
         return
+    sh = shared_rows(res)
+    if sh:
+        V("concatenate_from_streams|rows-share-one-object", "the rows of taxa %r and %r of the result are one and the same object" % sh)
     if sorted(x[1] for x in rsnap[2]) != sorted(plan["ranges"]):
         V("concatenate_from_streams|wrong-subsets", "recorded subsets %s, the sources' column ranges are %s" % (
             [(x[0], list(x[1])) for x in rsnap[2]], [list(r) for r in plan["ranges"]]))
@@ -1011,6 +1080,8 @@ def run_starts(chunk, ctx):
             snap, probs = snapshot(w.M, w.taxa)
             if probs or snap != (lab, rows, ()):
                 raise AssertionError("harness: builder/snapshot disagree on pool matrix %d of %r" % (j, cfg))
+            if shared_rows(w.M):
+                raise AssertionError("harness: builder made two rows one object")
             pv = public_view_problems(cfg[0], w.M, w.taxa, rows)
             if pv:
                 ctx.violation("observation|public-view-differs", pv, {"kind": "pool", "cfg": cfg, "index": j})
@@ -1071,6 +1142,48 @@ def _expand_state(cfg, state, depth, last, b, ctx, out, seen_local, pidx):
             out.append(digest(succ) if last else (succ, pidx, op))
 
 
+FIRST_OPS = (("fill_taxa",), ("pack", "none", 1, 1), ("pack", "max+1", 1, 1), ("pack", "max+1", 0, 1),
+             ("pack", "none", 1, 0), ("fill", "none", 1), ("fill", "max+1", 0))
+
+
+def history_pairs(cfg, state, depth, b):
+    """[(first op, intermediate snapshot, [second ops])]: fill_taxa / pack / fill followed, ON THE SAME LIVE
+    OBJECT, by every operation enabled in the intermediate state plus every single-cell assignment"""
+    n = cfg[1]
+    if depth > depth_of(cfg, b) - 2 or n - nrows(state[1]) < b["history_pairs_min_taxa_missing"]:
+        return []
+    out = []
+    for f in FIRST_OPS:
+        if f[1:2] == ("max+1",) and maxlen(state[1]) + 1 > b["max_columns"]:
+            continue
+        w = World(cfg, state, b)
+        try:
+            thunk_for(cfg, w, f, state)()
+        except Exception:
+            continue                       # reported by the plain transition
+        mid, probs = snapshot(w.M, w.taxa)
+        if probs:
+            continue
+        seconds = list(enabled_ops(cfg, mid, depth + 1, b))
+        for i, r in enumerate(mid[1]):
+            if r is not None:
+                for j in range(len(r)):
+                    seconds.append(("setcell", i, j))
+        out.append((f, mid, seconds))
+    return out
+
+
+def _expand_pairs(cfg, state, depth, b, ctx):
+    nt = nontrivial(cfg, state) or cfg[1] >= 2
+    for f, mid, seconds in history_pairs(cfg, state, depth, b):
+        for op in seconds:
+            ctx.case((cfg, "h", state, f, op), nontrivial=nt)
+            ctx.count("transitions")
+            ctx.count("two_step_histories_on_one_live_object")
+            ctx.count("calls:history:%s->%s" % (site(f), site(op)))
+            check_transition(cfg, mid, op, ctx, b, prefix=(state, f))
+
+
 def run_level(chunk, ctx):
     cfg = (chunk["cfg"][0], int(chunk["cfg"][1]))
     b = bounds(chunk["tier"])
@@ -1078,6 +1191,7 @@ def run_level(chunk, ctx):
     seen_local = set()
     for pidx, state in enumerate(chunk["states"]):
         _expand_state(cfg, tup(state), chunk["depth"], chunk["last"], b, ctx, out, seen_local, pidx)
+        _expand_pairs(cfg, tup(state), chunk["depth"], b, ctx)
     if chunk["states"] and cfg[1] >= 2:
         from mc.runner import Ctx
         st = tup(chunk["states"][len(chunk["states"]) // 2])
@@ -1205,7 +1319,7 @@ def explore(tier, runner):
         for v in ent["first"]:
             c = v["case"]
             if isinstance(c, dict) and c.get("kind") == "trans" and c["state"][1] is not None:
-                c["history"] = history(parent, tuple(c["cfg"]), tup(c["state"])) + [c["py"]]
+                c["history"] = history(parent, tuple(c["cfg"]), tup(c.get("prefix_state", c["state"]))) + [c["py"]]
     runner.notes.append("BFS completed per configuration (data type/taxa: depth) %s; states of the last level are "
                         "counted, not expanded" % (", ".join("%s/%d:%d" % (c[0], c[1], d) for c, d in sorted(completed.items())),))
 
@@ -1229,7 +1343,8 @@ def replay(case, ctx):
     b = bounds("thorough")
     if k == "trans":
         cfg = (case["cfg"][0], int(case["cfg"][1]))
-        check_transition(cfg, tup(case["state"]), tup(case["op"]), ctx, b)
+        prefix = (tup(case["prefix_state"]), tup(case["prefix_op"])) if "prefix_op" in case else None
+        check_transition(cfg, tup(case["state"]), tup(case["op"]), ctx, b, prefix=prefix)
     elif k == "streams":
         check_streams(tuple(case["cfg"]), case["schema"], tup(case["list"]), ctx, b)
     elif k == "pool":
